@@ -36,6 +36,15 @@ def text(c):
 # ---- concretisation -------------------------------------------------------------------------
 
 EXTRA_TOKENS = ["keep-alive", "foo", "TE", "x-1", "h2c"]
+TCHARS = "!#$%&'*+-.^_`|~0123456789ABCDEFGHIJKLMNOPQRSTUVWXYZabcdefghijklmnopqrstuvwxyz"
+
+
+def rand_token(rnd):
+    """An unrelated token over the WHOLE RFC 7230 tchar alphabet (the specification re-parses the bytes, so any token
+    is fine): a list element made of characters the library's token table must know."""
+    if rnd.random() < 0.3:
+        return rnd.choice(EXTRA_TOKENS)
+    return "".join(rnd.choice(TCHARS) for _ in range(rnd.choice([1, 1, 2, 3])))
 
 
 def split_commas(line):
@@ -64,7 +73,7 @@ def mutate_token_lines(lines, rnd, fold=True, extra=True):
                 return [rnd.choice([32, 9]) for _ in range(rnd.choice([0, 0, 1, 1, 2]))]
             elems = [ows() + strip_ows(e) + ows() if strip_ows(e) else e for e in elems]
         if extra and rnd.random() < 0.3:
-            t = cps(rnd.choice(EXTRA_TOKENS))
+            t = cps(rand_token(rnd))
             if rnd.random() < 0.5:
                 elems.append([32] + t)
             else:
